@@ -330,6 +330,104 @@ def night_drive(ctx):
     ctx.stats["night_session_days"] += len(out)
 
 
+def night_minute_drive(ctx, corr):
+    """minute bars of a contract with a night session (its trading hours list the night session FIRST: it opens the trading day): a real Scheduler('1m') reads the
+    sessions off the real Instrument; a time rule fires once, at the bar of its own minute — in the night session and in the day session alike"""
+    from rqalpha.environment import Environment
+    from rqalpha.core.events import EVENT, Event
+    from rqalpha.mod.rqalpha_mod_sys_scheduler.scheduler import Scheduler, physical_time
+    rnd = random.Random(ctx.rnd.random())
+    S = B.gen_market(rnd, ndays=6, warm=1, n_stocks=0, with_future=True, opts={"n_futures": 1, "p_expire": 0})
+    fid = S["futures"][0]["id"]
+    S["futures"][0]["trading_hours"] = "21:01-23:00,09:01-10:15,10:31-11:30,13:31-15:00"
+    night = list(range(1261, 1381))
+    dayb = list(range(541, 616)) + list(range(631, 691)) + list(range(811, 901))
+    rules = [physical_time(21, 30), physical_time(22, 0), physical_time(23, 0), physical_time(9, 31), physical_time(10, 0), physical_time(10, 31), physical_time(13, 31), physical_time(14, 55),
+             physical_time(12, 0), physical_time(21, 1)] + [rnd.choice(night + dayb[1:]) for _ in range(4)]
+    log = []
+
+    class Stub(object):
+        now = None
+
+    class Ev(object):
+        bar_dict = None
+
+    def init(context):
+        env = Environment.get_instance()
+        sched = Scheduler("1m")
+        stub = Stub()
+        sched._ucontext = stub
+        fired = []
+        for i, tr in enumerate(rules):
+            sched.run_daily((lambda i: (lambda c, b: fired.append((i, stub.now))))(i), time_rule=tr)
+        try:
+            sched._universe_change(Event(EVENT.POST_UNIVERSE_CHANGED, universe=[fid]))
+            cal = S["cal"]
+            for k in range(1, len(cal)):
+                prev, day = cal[k - 1], cal[k]
+                full = rnd.random() < 0.6
+                nb = night if full else sorted(rnd.sample(night, rnd.randrange(1, 40)))
+                db = dayb if full else sorted(rnd.sample(dayb, rnd.randrange(1, 60)))
+                cdt = datetime.datetime.combine(prev, datetime.time(20, 55))
+                tdt = datetime.datetime.combine(day, datetime.time(20, 55))
+                env.update_time(cdt, tdt)
+                stub.now = cdt
+                del fired[:]
+                sched.next_day_(Event(EVENT.PRE_BEFORE_TRADING, calendar_dt=cdt, trading_dt=tdt))
+                sched.before_trading_(Event(EVENT.BEFORE_TRADING, calendar_dt=cdt, trading_dt=tdt))
+                for m in nb:
+                    stub.now = datetime.datetime.combine(prev, datetime.time(m // 60, m % 60))
+                    env.update_time(stub.now, datetime.datetime.combine(day, datetime.time(m // 60, m % 60)))
+                    sched.next_bar_(Ev())
+                for m in db:
+                    stub.now = datetime.datetime.combine(day, datetime.time(m // 60, m % 60))
+                    env.update_time(stub.now, stub.now)
+                    sched.next_bar_(Ev())
+                per = {}
+                for i, now in fired:
+                    per.setdefault(i, []).append(now.hour * 60 + now.minute)
+                log.append((day, nb + db, per, sched._start_minute, sorted(sched._trading_minute_range)))
+        finally:
+            sched._registry[:] = []
+            env.update_time(None, None)
+    res, exc = runner.run_real(S, dict(accounts={"future": 1e6}), {"init": init})
+    if exc is not None:
+        raise RuntimeError("night minute drive failed: %r" % (exc,))
+    lines, meta = [], []
+    for day, bars, per, start_minute, ranges in log:
+        if start_minute != 1260 or ranges != [(541, 615), (631, 690), (811, 900), (1261, 1380)]:
+            ctx.witness("C17.time", {"kind": "night_sessions_read_wrongly"}, "contract with trading hours 21:01-23:00,09:01-10:15,10:31-11:30,13:31-15:00: the scheduler's day starts at minute %s (the night session opens at 21:01, i.e. 1260) "
+                        "with sessions %s" % (start_minute, ranges), {"day": str(day)})
+            return
+        for i, n in enumerate(rules):
+            ctx.evaluations += 1
+            got = per.get(i, [])
+            inh = any(a <= n <= b for a, b in ranges)
+            # specification (the code's catch-up rule): at the first bar at or after its minute within the same stretch of the day (evening: minutes after 21:00; day
+            # session: a rule later than the first day bar); the very first day bar's own minute is the known blind spot of the wrap-around (not asserted)
+            if n > 1260:
+                later = [m for m in bars if m > 1260 and m >= n]
+            else:
+                later = [m for m in bars if m <= 1260 and m >= n]
+            blind = n <= min([m for m in bars if m <= 1260] or [0]) or (n <= 1260 and not [m for m in bars if m <= 1260 and m < n])
+            if n <= 1260 and blind:
+                ctx.stats["night_minute_rules_in_the_wrap_around_blind_spot"] += 1
+            else:
+                want = [later[0]] if (inh and later) else []
+                ctx.nontrivial("1m-night", "evening" if n > 1260 else "day", bool(want), len(bars) > 200)
+                if got != want:
+                    ctx.witness("C17.time", {"kind": "night_minute_time_rule", "evening_rule": n > 1260}, "night-trading contract, trading day %s: time rule %02d:%02d fired at bars %s; specification %s"
+                                % (day, n // 60, n % 60, ["%02d:%02d" % (g // 60, g % 60) for g in got], ["%02d:%02d" % (g // 60, g % 60) for g in want]), {"time_rule": n, "bars": bars})
+                    return
+            lines.append("SCHTIME 0 %d %d %s 1 %s %s" % (start_minute, 2 * len(ranges), " ".join("%d %d" % r for r in ranges), n, " ".join(map(str, bars))))
+            meta.append((day, n, got, bars))
+    reps = vlib.ask_driver(lines) if ctx.driver_ok else []
+    for (day, n, got, bars), rep in zip(meta, reps):
+        t = rep.split()
+        corr.add(t[0] == "0" and [int(x) for x in t[1:]] == got, {"time_rule": n, "day": str(day), "n_bars": len(bars), "impl": got, "model": rep, "night_session": True})
+    ctx.stats["night_minute_rule_days"] += len(log)
+
+
 def direct(ctx, c_bucket, c_civil, c_time):
     from rqalpha.environment import Environment
     from rqalpha.mod.rqalpha_mod_sys_scheduler.scheduler import Scheduler, market_open, market_close, physical_time
@@ -472,6 +570,10 @@ def run(ctx):
         minute_drive(ctx, c_min)
     for _ in range(ctx.n(2, 30)):
         night_drive(ctx)
+    for _ in range(ctx.n(2, 30)):
+        night_minute_drive(ctx, c_min)
+    import minute_stream
+    minute_stream.stream(ctx, ctx.n(2, 40), [], sched_clause="C17.time")       # whole minute back-tests: the event source, the executor and the scheduler together
     for _ in range(ctx.n(2, 30)):
         direct(ctx, c_bucket, c_civil, c_time)
 
